@@ -127,6 +127,8 @@ def run(prog):
     for f in sorted(impls, key=lambda f: f.path):
         obs.extend(check_method(prog, f))
     obs.extend(check_partition_ctor(prog))
+    obs.extend(check_siblings(prog, impls))
+    obs.extend(check_is_empty(prog))
     floors = [Floor(RULE, "impl ArrayLike for T", len(impl_names), 13),
               Floor(RULE, "accessor methods", len(impls), 39)]
     return obs, floors, {"impls": impl_names}
@@ -315,4 +317,95 @@ def check_partition_ctor(prog):
                 obs.append(ok(RULE, key, st, "%s = %s.len(), %s = checked_add(%s.len(), %s.len())" % (part["lower"], part["lo"], part["len"], part["lo"], part["hi"])))
             else:
                 obs.append(bad(RULE, key, st, "partition exception no longer justified: " + "; ".join(why)))
+    return obs
+
+
+def forwarded(prog, f):
+    """(receiver descriptor, index descriptor) of every call that hands an index-derived value to an inner
+    array accessor or to a checked accessor"""
+    out = []
+    for b, t in f.calls():
+        if b not in f.live_blocks or f.is_cleanup(b):
+            continue
+        callee = t.get("res") or t.get("fn") or ""
+        unres = t.get("fn") or ""
+        if not (is_arr_accessor(callee) or is_arr_accessor(unres) or unres in CHECKED_ACCESSORS):
+            continue
+        if len(t["args"]) < 2:
+            continue
+        recv = strip(f.desc_op(t["args"][0]))
+        idx = strip(f.desc_op(t["args"][1]))
+        if not contains(idx, lambda x: x == ("param", 2)):
+            continue
+        out.append((recv, idx))
+    return out
+
+
+def check_siblings(prog, impls):
+    """Engler-style sibling cross-check: get / get_lazy / get_cheap of one view must translate the index
+    identically whenever they forward to the same inner storage."""
+    obs = []
+    by_impl = {}
+    for f in impls:
+        by_impl.setdefault(f.parent, {})[f.path.rsplit("::", 1)[1]] = f
+    for impl, ms in sorted(by_impl.items()):
+        tname = short_path(next(iter(ms.values())).self_ty)
+        maps = {}
+        for m, f in ms.items():
+            fw = forwarded(prog, f)
+            # methods that never forward (e.g. get_cheap returning None) are not compared
+            if fw:
+                maps[m] = {}
+                for recv, idx in fw:
+                    if recv == ("param", 1):
+                        continue  # sibling call on self
+                    maps[m].setdefault(recv, set()).add(idx)
+        ref_m = "get" if "get" in maps else (sorted(maps)[0] if maps else None)
+        if ref_m is None or len(maps) < 2:
+            continue
+        for m in sorted(maps):
+            if m == ref_m:
+                continue
+            key = "%s:siblings(%s~%s)" % (tname, ref_m, m)
+            diffs = []
+            for recv in set(maps[m]) & set(maps[ref_m]):
+                if maps[m][recv] != maps[ref_m][recv]:
+                    diffs.append("%s: %s passes %s, %s passes %s" % (
+                        show(recv), ref_m, " / ".join(sorted(show(x) for x in maps[ref_m][recv])),
+                        m, " / ".join(sorted(show(x) for x in maps[m][recv]))))
+            st = site(ms[m])
+            if diffs:
+                obs.append(bad(RULE, key, st, "sibling accessors of %s translate the index differently: %s" % (tname, "; ".join(diffs))))
+            else:
+                obs.append(ok(RULE, key, st, "same index translation for every shared inner receiver", nontrivial=bool(set(maps[m]) & set(maps[ref_m]))))
+    return obs
+
+
+def check_is_empty(prog):
+    """an impl that overrides is_empty() must compute `len() == 0` (the default does)"""
+    obs = []
+    n = 0
+    for f in sorted(prog.fns.values(), key=lambda f: f.path):
+        if f.impl_trait != TRAIT or not f.path.endswith("::is_empty"):
+            continue
+        n += 1
+        tname = short_path(f.self_ty)
+        key = "%s:is_empty" % tname
+        lens = len_descs(prog, f)
+        r = strip(f.desc_local(0)) if len(f.returns()) == 1 else None
+        good = False
+        why = "is_empty() returns %s" % (show(r) if r else "a path-dependent value")
+        if r and r[0] == "bin" and r[1] == "Eq" and r[3] == ("const", 0):
+            if is_len_of_self(r[2], lens, f.parent):
+                good = True
+            # forwarding view: inner.is_empty() handled below
+        if r and r[0] == "call" and r[1].endswith("::is_empty") and len(r[2]) == 1:
+            # forwards to the inner array's is_empty: fine iff len() forwards to the same inner len()
+            if lens["ret"] and lens["ret"][0] == "call" and lens["ret"][1].endswith("::len") and lens["ret"][2] == r[2]:
+                good = True
+        if good:
+            obs.append(ok(RULE, key, site(f), "is_empty() is `len() == 0` (or forwards like len())"))
+        else:
+            obs.append(bad(RULE, key, site(f), "%s overrides is_empty() but does not compute `self.len() == 0`: %s; consumers "
+                           "(ArrValue::extended, flattenArrays, manifesters) would disagree with len()" % (tname, why)))
     return obs
